@@ -10,7 +10,7 @@ def generate(G):
              ("neg", "Neg", [L([2])], "thorough", 6),
              ("dot", "Matmul { at: false, bt: false, c: false }", [L([2]), L([2])], "quick", 8),
              ("recip", "Recip", [L([2], "Pos")], "quick", 6), ("div", "Div", [L([2]), L([2], "Pos")], "thorough", 6),
-             ("powf3", "Powf(3.0)", [L([2])], "thorough", 6), ("sumsq", "DivSum", [L([1, 2], "Pos")], "thorough", 6), ("untracked", "MulAddShare", [L([2]), L([2], tracked=False)], "thorough", 6)]
+             ("powf3", "Powf(3.0)", [L([2])], "thorough", 6), ("untracked", "MulAddShare", [L([2]), L([2], tracked=False)], "thorough", 6)]
     for id, prog, ls, tier, unwind in progs:
         st = ("powf",) if id in ("recip", "div", "powf3", "sumsq") else ()
         G.ob("c17_linear_" + id, "C17", "linear", "c17::linear(s, &programs::%s, %s)" % (prog, G.leaves(ls)), unwind=unwind, tier=tier, stubs=st,
